@@ -72,8 +72,10 @@ func normalizedString(r RR) string {
 			if ttlEnd == 0 {
 				ttlEnd = i
 			}
-		case b[i] >= 'A' && b[i] <= 'Z' && !esc:
+		case b[i] >= 'A' && b[i] <= 'Z':
+			// an escaped letter is that letter
 			b[i] += 32
+			esc = false
 		default:
 			esc = false
 		}
